@@ -266,3 +266,22 @@ Proof.
   intros H1 H2 H3. unfold prop_C43, run_C43. rewrite (cbc_record_ok_spec vers clen 20 full H1 H2 H3 ltac:(lia)).
   apply val_eqb_refl.
 Qed.
+
+(* ---- removePaddingSSL30 ---- *)
+Lemma remove_padding_ssl30_exact pl : wf_bytes pl = true -> remove_padding_ssl30 pl = spec_remove_ssl30 pl.
+Proof.
+  intros Hwf. unfold remove_padding_ssl30, spec_remove_ssl30.
+  destruct (rev pl) as [|p r] eqn:Er; [reflexivity|].
+  assert (Hp : byte p).
+  { assert (Forall byte (p :: r)) by (rewrite <- Er; apply Forall_rev, wf_bytes_Forall; exact Hwf).
+    inversion H; assumption. }
+  unfold byte in Hp. rewrite Z.gtb_ltb.
+  destruct (Z.ltb_spec (Z.of_nat (length pl)) (p + 1)); destruct (Z.leb_spec (p + 1) (Z.of_nat (length pl))); try lia; try reflexivity.
+  f_equal. f_equal. lia.
+Qed.
+Lemma prop_C43_ssl30_of_model pl :
+  wf_bytes pl = true -> prop_C43 (VL [VZ 3; VB pl]) (run_C43 (VL [VZ 3; VB pl])) = true.
+Proof.
+  intros H. unfold prop_C43, run_C43. rewrite (remove_padding_ssl30_exact pl H).
+  destruct (spec_remove_ssl30 pl). apply val_eqb_refl.
+Qed.
